@@ -297,7 +297,7 @@ impl Chain {
                 if id_of(delegator) == HUB {
                     for val in VALS.iter() {
                         let amt = self.deleg_of(*val);
-                        if amt > 0 {
+                        if self.deleg.contains_key(val) {
                             v.push(DelegationJ {
                                 delegator: delegator.clone(),
                                 validator: name(*val),
@@ -311,7 +311,7 @@ impl Chain {
             QueryRequest::Staking(StakingQuery::Delegation { delegator, validator }) => {
                 let v = id_of(validator);
                 let amt = if id_of(delegator) == HUB { self.deleg_of(v) } else { 0 };
-                let d = if amt == 0 {
+                let d = if !(id_of(delegator) == HUB && self.deleg.contains_key(&v)) {
                     None
                 } else {
                     let can = if self.no_redelegate.contains(&v) { 0 } else { amt };
@@ -597,7 +597,11 @@ impl Chain {
                 if d < amt {
                     return Err("insufficient delegation".into());
                 }
-                self.deleg.insert(v, d - amt);
+                if d - amt == 0 {
+                    self.deleg.remove(&v);
+                } else {
+                    self.deleg.insert(v, d - amt);
+                }
                 self.unbonding.push((v, amt, self.time + self.unbonding_time));
                 self.effects.push(Effect::Undelegate { v, amt });
                 Ok(())
@@ -625,7 +629,11 @@ impl Chain {
                 if d < amt {
                     return Err("insufficient delegation".into());
                 }
-                self.deleg.insert(src, d - amt);
+                if d - amt == 0 {
+                    self.deleg.remove(&src);
+                } else {
+                    self.deleg.insert(src, d - amt);
+                }
                 *self.deleg.entry(dst).or_insert(0) += amt;
                 self.effects.push(Effect::Redelegate { src, dst, amt });
                 Ok(())
@@ -635,7 +643,7 @@ impl Chain {
                 if sender != HUB {
                     return Err("unsupported delegator".into());
                 }
-                if self.deleg_of(v) == 0 {
+                if !self.deleg.contains_key(&v) {
                     return Err("no delegation".into());
                 }
                 for d in 0..3u8 {
@@ -712,8 +720,10 @@ impl Chain {
         if den == 0 || num > den {
             return;
         }
-        let d = self.deleg_of(v);
-        self.deleg.insert(v, mul_floor(d, den - num, den));
+        if self.deleg.contains_key(&v) {
+            let d = self.deleg_of(v);
+            self.deleg.insert(v, mul_floor(d, den - num, den));
+        }
     }
     pub fn slash_unbonding(&mut self, v: Id, num: u128, den: u128) {
         if den == 0 || num > den {
